@@ -34,13 +34,20 @@
 (*     fsynced before (this is what makes rename-before-fsync unsafe).     *)
 (*  D5 symlink(2) creates name and link text atomically.                   *)
 (*  D6 metadata that is not content (owner, times, mode) is not modelled.  *)
+(*  D7 faults: a system call that returns an error has no effect on the    *)
+(*     model state, except a FAILED fsync of a file: it makes nothing      *)
+(*     durable and the inode is marked `bad` - its dirty pages may have    *)
+(*     been dropped by the kernel, so a later successful fsync of that     *)
+(*     inode proves nothing (Linux >= 4.13 reports a write-back error      *)
+(*     once).  A failed directory fsync makes nothing durable.             *)
 (* Content is abstract: a sequence of chunk identifiers.  Old == <<0>>,    *)
 (* New == <<1, .., N>> (N = number of write calls that make up New).       *)
 (***************************************************************************)
 EXTENDS Naturals, Sequences, FiniteSets, TLC
 
 VARIABLES
-  inodes,   \* Seq of [vol: Seq(Nat), dur: Seq(Nat)]; the index is the inode number
+  inodes,   \* Seq of [vol: Seq(Nat), dur: Seq(Nat), bad: BOOLEAN]; the index is the inode number
+            \* (bad: an fsync of this inode failed, D7)
   dhist,    \* non-empty Seq of directories (function name -> inode number):
             \* dhist[1] is the durable directory, dhist[Len(dhist)] the volatile one,
             \* in between the states after each not yet durable directory operation (D3)
@@ -62,7 +69,8 @@ Has(d, n) == n \in DOMAIN d
 Bind(d, n, i) == [x \in (DOMAIN d) \cup {n} |-> IF x = n THEN i ELSE d[x]]
 Drop(d, n) == [x \in (DOMAIN d) \ {n} |-> d[x]]
 NewIno == Len(inodes) + 1
-Fresh(c, durable) == [vol |-> c, dur |-> IF durable THEN c ELSE <<>>]
+Fresh(c, durable) == [vol |-> c, dur |-> IF durable THEN c ELSE <<>>, bad |-> FALSE]
+Durable(c) == Fresh(c, TRUE)
 Min(a, b) == IF a <= b THEN a ELSE b
 Max(a, b) == IF a >= b THEN a ELSE b
 
@@ -117,9 +125,22 @@ Fsync(fd) ==
   /\ IF fds[fd].ino = 0
      THEN /\ dhist' = <<VDir>>
           /\ inodes' = inodes
-     ELSE /\ inodes' = [inodes EXCEPT ![fds[fd].ino].dur = inodes[fds[fd].ino].vol]
+     ELSE /\ inodes' = IF inodes[fds[fd].ino].bad THEN inodes        \* D7
+                       ELSE [inodes EXCEPT ![fds[fd].ino].dur = inodes[fds[fd].ino].vol]
           /\ dhist' = dhist
   /\ UNCHANGED <<fds, crashed, par>>
+
+\* fsync(2) that returned an error (EIO, late ENOSPC, ...): nothing became durable (D7)
+FsyncFail(fd) ==
+  /\ ~crashed
+  /\ fd \in DOMAIN fds
+  /\ inodes' = IF fds[fd].ino = 0 THEN inodes ELSE [inodes EXCEPT ![fds[fd].ino].bad = TRUE]
+  /\ UNCHANGED <<dhist, fds, crashed, par>>
+
+\* any other system call that returned an error: no effect (D7)
+Failed ==
+  /\ ~crashed
+  /\ UNCHANGED <<inodes, dhist, fds, crashed, par>>
 
 Close(fd) ==
   /\ ~crashed
@@ -189,8 +210,8 @@ Crash ==
        IN \E f \in Assign(reach) :                    \* D2, D4: independently for every inode
             /\ dhist' = <<d>>
             /\ inodes' = [i \in 1 .. Len(inodes) |->
-                            IF i \in reach THEN [vol |-> f[i], dur |-> f[i]]
-                            ELSE [vol |-> <<>>, dur |-> <<>>]]     \* orphans are reclaimed
+                            IF i \in reach THEN Durable(f[i])
+                            ELSE Durable(<<>>)]                    \* orphans are reclaimed
   /\ fds' = EmptyFn
   /\ crashed' = TRUE
   /\ UNCHANGED par
@@ -229,7 +250,7 @@ MkPar(t, hasold, newc) ==
 
 \* initial file system of a case: the durable Old target (inode 1) if any, nothing else
 FsInit(t, hasold) ==
-  /\ inodes = IF hasold THEN <<[vol |-> <<0>>, dur |-> <<0>>]>> ELSE <<>>
+  /\ inodes = IF hasold THEN <<Durable(<<0>>)>> ELSE <<>>
   /\ dhist = <<IF hasold THEN (t :> 1) ELSE EmptyFn>>
   /\ fds = EmptyFn
   /\ crashed = FALSE
@@ -238,14 +259,16 @@ FsInit(t, hasold) ==
 (* Part 3: WriterSpec - the protocol of osutil/io.go:AtomicFile (NewAtomicFile, Write*, commit)  *)
 
 CONSTANTS MaxChunks,   \* New consists of 0..MaxChunks chunks
-          Variants     \* subset of {"good","nosync","rename_first","wrongfd","inplace","nodirsync"}
+          Variants,    \* subset of {"good","nosync","rename_first","wrongfd","inplace","nodirsync","ignore_fsync_error"}
+          MaxFaults    \* number of system calls that may return an error (fsync, write, rename) in one run
 
 O(op, fd, a, b, c) == [op |-> op, fd |-> fd, a |-> a, b |-> b, c |-> c]
 Writes(n) == [j \in 1 .. n |-> O("write", 1, "", "", j)]
 
 \* fd 1 = the file, fd 2 = the directory
 Prog(variant, n) ==
-  CASE variant = "good" ->          \* io.go: OpenFile(tmp, O_WRONLY|O_CREATE|O_TRUNC|O_EXCL); Write*; os.Open(dir);
+  CASE variant \in {"good", "ignore_fsync_error"} ->
+                                    \* io.go: OpenFile(tmp, O_WRONLY|O_CREATE|O_TRUNC|O_EXCL); Write*; os.Open(dir);
                                     \* aw.Sync(); aw.Close(); os.Rename(tmp, target); dir.Sync(); dir.Close()
          <<O("open", 1, "tmp", "cet", 0)>> \o Writes(n) \o
          <<O("opendir", 2, "", "", 0), O("fsync", 1, "", "", 0), O("close", 1, "", "", 0),
@@ -273,38 +296,67 @@ Prog(variant, n) ==
 
 HasFlag(s, ch) == \E i \in 1 .. Len(s) : SubSeq(s, i, i) = ch
 
-Exec(o) ==
-  CASE o.op = "open"    -> Open(o.fd, o.a, HasFlag(o.b, "c"), HasFlag(o.b, "e"), HasFlag(o.b, "t"))
-    [] o.op = "opendir" -> OpenDir(o.fd)
-    [] o.op = "write"   -> Write(o.fd, o.c)
-    [] o.op = "fsync"   -> Fsync(o.fd)
-    [] o.op = "close"   -> Close(o.fd)
-    [] o.op = "rename"  -> Rename(o.a, o.b)
-    [] o.op = "unlink"  -> Unlink(o.a)
+CloseAll ==
+  /\ ~crashed
+  /\ fds' = EmptyFn
+  /\ UNCHANGED <<inodes, dhist, crashed, par>>
 
-\* pc = <<variant, number of chunks, index of the next op>>
-WDone == pc[3] > Len(Prog(pc[1], pc[2]))
+Exec(o) ==
+  CASE o.op = "open"      -> Open(o.fd, o.a, HasFlag(o.b, "c"), HasFlag(o.b, "e"), HasFlag(o.b, "t"))
+    [] o.op = "opendir"   -> OpenDir(o.fd)
+    [] o.op = "write"     -> Write(o.fd, o.c)
+    [] o.op = "fsync"     -> Fsync(o.fd)
+    [] o.op = "close"     -> Close(o.fd)
+    [] o.op = "rename"    -> Rename(o.a, o.b)
+    [] o.op = "unlink"    -> Unlink(o.a)
+    [] o.op = "unlink_if" -> IF Has(VDir, o.a) THEN Unlink(o.a) ELSE Failed
+    [] o.op = "closeall"  -> CloseAll
+
+\* what the writer does after an error: io.go returns it, the caller's deferred Cancel() removes the temp
+\* file, every descriptor is closed; the target is never touched
+CancelProg == <<O("unlink_if", 0, "tmp", "", 0), O("closeall", 0, "", "", 0)>>
+
+\* pc = <<variant, number of chunks, index of the next op, faults so far, "run" | "cancel">>
+CurProg == IF pc[5] = "cancel" THEN CancelProg ELSE Prog(pc[1], pc[2])
+WDone == pc[3] > Len(CurProg)
 
 WInit ==
   /\ \E v \in Variants, n \in 0 .. MaxChunks, hasold \in BOOLEAN :
         /\ par = MkPar("target", hasold, [j \in 1 .. n |-> j])
         /\ FsInit("target", hasold)
-        /\ pc = <<v, n, 1>>
+        /\ pc = <<v, n, 1, 0, "run">>
   /\ disc = TRUE
 
 WStep ==
   /\ ~WDone
-  /\ Exec(Prog(pc[1], pc[2])[pc[3]])
-  /\ pc' = <<pc[1], pc[2], pc[3] + 1>>
+  /\ Exec(CurProg[pc[3]])
+  /\ pc' = <<pc[1], pc[2], pc[3] + 1, pc[4], pc[5]>>
+  /\ UNCHANGED disc
+
+\* the next system call returns an error instead (D7)
+WFault ==
+  /\ ~WDone
+  /\ pc[5] = "run"
+  /\ pc[4] < MaxFaults
+  /\ LET o == CurProg[pc[3]]
+     IN \/ /\ o.op = "fsync"
+           /\ FsyncFail(o.fd)
+           /\ pc' = IF o.fd = 1 /\ pc[1] # "ignore_fsync_error"
+                    THEN <<pc[1], pc[2], 1, pc[4] + 1, "cancel">>          \* `if err := aw.Sync(); err != nil { return err }`
+                    ELSE <<pc[1], pc[2], pc[3] + 1, pc[4] + 1, "run">>     \* dir.Sync() failed: returned, nothing to undo;
+                                                                          \* or (broken variant) the error is only remembered
+        \/ /\ o.op \in {"write", "rename"}
+           /\ Failed
+           /\ pc' = <<pc[1], pc[2], 1, pc[4] + 1, "cancel">>
   /\ UNCHANGED disc
 
 WCrash == Crash /\ UNCHANGED <<pc, disc>>
 
-\* NOT part of C06 (stronger: durability once the writer has returned); used only to show what the
+\* NOT part of C06 (stronger: durability once the writer has returned without error); used only to show what the
 \* directory fsync buys (cfg AtomicFile_mc_matrix.cfg)
-DurableWhenDone == (crashed /\ WDone) => (TargetPresent /\ TargetContent = par.newc)
+DurableWhenDone == (crashed /\ WDone /\ pc[4] = 0) => (TargetPresent /\ TargetContent = par.newc)
 
-WNext == WStep \/ WCrash
+WNext == WStep \/ WFault \/ WCrash
 WriterSpec == WInit /\ [][WNext]_vars
 
 -----------------------------------------------------------------------------
@@ -318,7 +370,8 @@ CONSTANTS AnyNames,      \* names in the directory
           AnyDirFds,     \* fds used for the directory
           AnyChunks,     \* New has 1..AnyChunks chunks; writes use chunk ids 1..AnyChunks
           AnyMaxInodes, AnyMaxHist, AnyMaxLen,
-          AnyMaxSteps    \* number of system calls explored (pc[2] counts them)
+          AnyMaxSteps,   \* number of system calls explored (pc[2] counts them)
+          AnyFaults      \* BOOLEAN: fsync may also fail (D7)
 AnyFds == AnyFileFds \cup AnyDirFds
 
 \* inodes that some possibly-durable directory shows under the target name
@@ -349,6 +402,7 @@ AnyStep ==
         /\ Write(fd, c)
         /\ disc' = (disc /\ OkWrite(fd))
   \/ \E fd \in AnyFds : Fsync(fd) /\ disc' = disc
+  \/ \E fd \in AnyFds : AnyFaults /\ FsyncFail(fd) /\ disc' = disc
   \/ \E fd \in AnyFds : Close(fd) /\ disc' = disc
   \/ \E a \in AnyNames, b \in AnyNames :
         /\ Len(dhist) < AnyMaxHist
